@@ -288,6 +288,18 @@ fn judge_bools(bits: &[bool], kind: Kind, level: f64, s: &mut Sink) {
     st5.extend(&a.to_vec());
     st5.extend(&b.to_vec());
     results.push(("Stats::extend x2", st5.ci(c), (st5.population(), st5.successes())));
+    // the predicate front-end on a non-empty state (two batches; after add_*; after +=)
+    let mut st7 = proportion::Stats::default();
+    let (ia, ib) = ints.split_at(n / 2);
+    st7.extend_if(&ia.to_vec(), |x| *x >= 100);
+    st7.extend_if(&ib.to_vec(), |x| *x >= 100);
+    results.push(("Stats::extend_if x2", st7.ci(c), (st7.population(), st7.successes())));
+    let mut st8 = proportion::Stats::default();
+    if n >= 1 {
+        if bits[0] { st8.add_success() } else { st8.add_failure() }
+        st8.extend_if(&ints[1..].to_vec(), |x| *x >= 100);
+        results.push(("add_* then extend_if", st8.ci(c), (st8.population(), st8.successes())));
+    }
     s.calls += results.len() as u64 + 1;
     for (name, r, counts) in &results {
         if *counts != (n, k) {
